@@ -162,10 +162,10 @@ def ob_exchange_1_4():
           paths = explore(run1)
           check_all_panics(stats, paths)
           for ctx, (dom, W, after, r) in live_paths(paths):
-            if not result_ok(r) or len(W.rng_draws) != 1:
-                raise Violation("exchange_1 must draw one fresh scalar and succeed (object %s)" % ("reused" if used else "new"))
-            RA = W.GMUL(W.rng_draws[0])
-            discharge(stats, ctx.facts + ctx.pc, z3.And(pt_term(dom, r.f[0]) == RA, pt_term(dom, after.f[5].f[0]) == RA, u256_term(dom, after.f[4].f[0]) == W.rng_draws[0]),
+            if not result_ok(r) or not W.rng_draws:
+                raise Violation("exchange_1 must draw a fresh scalar and succeed (object %s)" % ("reused" if used else "new"))
+            RA = W.GMUL(W.rng_draws[-1])
+            discharge(stats, ctx.facts + ctx.pc, z3.And(pt_term(dom, r.f[0]) == RA, pt_term(dom, after.f[5].f[0]) == RA, u256_term(dom, after.f[4].f[0]) == W.rng_draws[-1]),
                       "R_A = [r_A]G, and (r_A, R_A) are remembered for step 3 (object %s)" % ("reused" if used else "new"))
         # exchange_4: true iff S_A equals SM3(0x03 || yV || inner)
         def run4(ctx):
@@ -222,7 +222,7 @@ def ob_exchange_new():
                 exo = r.f[0]
                 hy = ctx.facts + ctx.pc
                 if len(calls) != 2:
-                    raise Violation("Exchange::new computes %d Z values" % len(calls))
+                    raise Inconclusive("structure not recognised (no verdict): " + "Exchange::new computes %d Z values" % len(calls))
                 default = [z3.BitVecVal(b, 8) for b in b"1234567812345678"]
                 wa = [dom.term(b) for b in ida] if given else default
                 wb = [dom.term(b) for b in idb] if given else default
